@@ -98,7 +98,7 @@ func c05Scenarios(u *uni.U, gen *wh.CPGen, la, lb wh.LogCfg) []c05Scenario {
 		return o
 	}
 	return []c05Scenario{
-		{Name: "S7", Props: "C03", Why: "a refused update (garbage proof, or stale once the other one is in) overlapping an accepted growth", Init: initA4,
+		{Name: "S7", Props: "C03 C05 C09", Why: "a refused update (garbage proof, or stale once the other one is in) overlapping an accepted growth", Init: initA4,
 			Threads: [][]c05Op{{up(la, m, 4, 6)}, {badProof(up(la, m, 4, 6))}, {get(la), get(la)}}},
 		{Name: "S8", Props: "C03", Why: "a refused same-size fork (root mismatch) overlapping a refresh and a growth", Init: initA4,
 			Threads: [][]c05Op{{up(la, m, 4, 4), up(la, m, 4, 6)}, {up(la, f0, 4, 4)}, {get(la)}}},
@@ -107,6 +107,10 @@ func c05Scenarios(u *uni.U, gen *wh.CPGen, la, lb wh.LogCfg) []c05Scenario {
 			Threads: [][]c05Op{{up(la, m, 2, 4)}, {up(lb, m, 3, 5)}, {get(la), get(lb)}}},
 		{Name: "S11", Props: "C05 C04 C16", Cold: true, Why: "restarted witness: a first read overlapping a growth, then reads", Init: initA4,
 			Threads: [][]c05Op{{up(la, m, 4, 6)}, {get(la), get(la)}, {get(la)}}},
+		{Name: "S12", Props: "C05 C09 C20", Why: "two byte-identical requests overlapping (same checkpoint, old size and proof): each is processed and answered on its own", Init: initA4,
+			Threads: [][]c05Op{{up(la, m, 4, 4)}, {up(la, m, 4, 4)}, {get(la)}}},
+		{Name: "S13", Props: "C05", Why: "two same-size refreshes and a growth overlapping (a refresh that lost its race must not land after the growth)", Init: initA4,
+			Threads: [][]c05Op{{up(la, m, 4, 4)}, {up(la, m, 4, 4)}, {up(la, m, 4, 6)}, {get(la)}}},
 		{Name: "S1", Props: "C05 C01", Why: "conflicting first use", Threads: [][]c05Op{{up(la, m, 0, 4)}, {up(la, f0, 0, 4)}, {get(la)}}},
 		{Name: "S2", Props: "C05 C01", Why: "two growths from 4, each valid alone, together a split view", Init: initA4,
 			Threads: [][]c05Op{{up(la, m, 4, 6)}, {up(la, f4, 4, 6)}, {get(la), get(la)}}},
@@ -836,7 +840,9 @@ func c05Explore(run *ev.Run, prop, tier string) {
 	}
 	for key, o := range perScen {
 		run.Set("distinct_outcomes["+key+"]", len(o))
-		if len(o) < 2 {
+		// S12 (two identical refreshes): every schedule has the same observable
+		// outcome when the implementation is right - that is the point.
+		if len(o) < 2 && !strings.HasPrefix(key, "S12/") {
 			run.Vacuous("scenario %s produced a single outcome over all schedules (nothing collided)", key)
 		}
 	}
